@@ -111,6 +111,13 @@ impl<'a> BerDecoder<'a> for SnmpReal {
     }
 }
 
+#[cfg(gufo_snmp_verif)]
+impl SnmpReal {
+    pub fn verif_value(&self) -> f64 {
+        self.0
+    }
+}
+
 impl SnmpReal {
     fn parse_u32(i: &[u8]) -> u32 {
         let mut v = 0u32;
